@@ -33,11 +33,30 @@ void add(const Options& o, std::vector<Item>& items, const std::string& name, st
     items.push_back(it);
 }
 
+// run f from a destructor while another exception is propagating (std::uncaught_exceptions() > 0 inside f):
+// wrappers are used from clean-up code, and a cow write handle dropped by a throwing caller commits this way
+struct Unwinding {};
+template <class F>
+struct RunInDtor {
+    F f;
+    ~RunInDtor() { f(); }  // f must not let anything escape
+};
+template <class F>
+void during_unwinding(F f)
+{
+    try {
+        RunInDtor<F> g{f};
+        throw Unwinding();
+    }
+    catch (const Unwinding&) {
+    }
+}
+
 // ====================================================================== A. lr_guarded
 using LR = lg::lr_guarded<Pair>;
 int g_effect, g_threw, g_mods;
 
-void lr_body(int writers, int mods, int readers, int reads)
+void lr_body(int writers, int mods, int readers, int reads, bool unwinding = false)
 {
     g_effect = g_threw = g_mods = 0;
     hx::win_reset();
@@ -46,8 +65,9 @@ void lr_body(int writers, int mods, int readers, int reads)
     {
         std::vector<int> ids;
         for (int w = 0; w < writers; w++)
-            ids.push_back(spawn([lr, mods] {
+            ids.push_back(spawn([lr, mods, unwinding] {
                 for (int i = 0; i < mods; i++) {
+                  auto one = [&] {
                     int calls = 0;
                     bool first_done = false;
                     ++g_mods;
@@ -71,6 +91,11 @@ void lr_body(int writers, int mods, int readers, int reads)
                     }
                     if (first_done) ++g_effect;
                     stamp();
+                  };
+                  if (unwinding)
+                      during_unwinding(one);
+                  else
+                      one();
                 }
             }));
         for (int r = 0; r < readers; r++)
@@ -152,7 +177,7 @@ void lock_body(int inst, std::vector<std::vector<OpI>> threads)
 
 // ====================================================================== C. cow_guarded
 using COW = lg::cow_guarded<Pair>;
-void cow_body(int writers, bool reader)
+void cow_body(int writers, bool reader, bool user_throws = false)
 {
     hx::win_reset();
     size_t base_blocks = live_blocks();
@@ -161,12 +186,16 @@ void cow_body(int writers, bool reader)
     {
         std::vector<int> ids;
         for (int w = 0; w < writers; w++)
-            ids.push_back(spawn([cow, &commits] {
+            ids.push_back(spawn([cow, &commits, user_throws] {
                 try {
                     auto h = cow->lock();  // copies the committed value: the copy constructor may throw
                     hx::bump_pair(*h, "writer modifies private copy");
                     ++commits;
+                    if (user_throws) throw Unwinding();  // the handle is released (= committed) by stack unwinding
                     // released (committed) here
+                }
+                catch (const Unwinding&) {
+                    MC_CHECK(holds(&cow->m_writeMutex) == 0, "lock-kept", "write handle dropped by unwinding but the writer mutex is still held");
                 }
                 catch (const Injected&) {
                     MC_CHECK(holds(&cow->m_writeMutex) == 0, "lock-kept", "lock() threw but the writer mutex is still held by this thread");
@@ -415,6 +444,10 @@ void make_items(const Options& o, std::vector<Item>& items)
     add(o, items, "lr_guarded<Pair>: 1 writer x 2 modify (throwing functor) | 1 reader x 2", [] { lr_body(1, 2, 1, 2); }, M_FUNC | M_FUNC2, 2, 3);
     add(o, items, "lr_guarded<Pair>: 2 writers x 1 modify (throwing functor) | 1 reader x 2", [] { lr_body(2, 1, 1, 2); }, M_FUNC | M_FUNC2, 2, 3);
     add(o, items, "lr_guarded<Pair>: 1 writer x 1 modify (throwing functor) | 2 readers x 1", [] { lr_body(1, 1, 2, 1); }, M_FUNC | M_FUNC2, 2, 3);
+    add(o, items, "lr_guarded<Pair>: 1 writer x 2 modify called from a destructor during stack unwinding (throwing functor) | 1 reader x 2",
+        [] { lr_body(1, 2, 1, 2, true); }, M_FUNC | M_FUNC2, 2, 3);
+    add(o, items, "lr_guarded<Pair>: 2 writers x 1 modify called from a destructor during stack unwinding (throwing functor) | 1 reader x 1",
+        [] { lr_body(2, 1, 1, 1, true); }, M_FUNC | M_FUNC2, 2, 3);
     if (thorough) add(o, items, "lr_guarded<Pair>: 2 writers x 2 modify (throwing functor) | 1 reader x 2", [] { lr_body(2, 2, 1, 2); }, M_FUNC | M_FUNC2, 2, 2);
     // B
     g_insts = all_instances();
@@ -445,6 +478,8 @@ void make_items(const Options& o, std::vector<Item>& items)
     // C
     add(o, items, "cow_guarded<Pair>: 2 writers lock+commit (throwing copy constructor) | reader x 2", [] { cow_body(2, true); }, M_COPY, 1, 2);
     add(o, items, "cow_guarded<Pair>: 2 writers lock+commit (throwing copy constructor)", [] { cow_body(2, false); }, M_COPY, 2, 3);
+    add(o, items, "cow_guarded<Pair>: 2 writers lock, modify, then user code throws: handle released by unwinding (throwing copy constructor) | reader x 2",
+        [] { cow_body(2, true, true); }, M_COPY, 1, 2);
     if (thorough) add(o, items, "cow_guarded<Pair>: 3 writers lock+commit (throwing copy constructor)", [] { cow_body(3, false); }, M_COPY, 2, 2);
     // D
     static const char* dn[] = {"modify_detach | modify_detach", "modify_async | reader | modify_detach", "modify_detach modify_detach | reader",
